@@ -378,6 +378,11 @@ func runC04(h *H) {
 	if h.Thorough() {
 		N = 12000
 	}
+	for i := 0; i < 40; i++ {
+		for _, sh := range []string{"value", "pointer", "single", "wide"} {
+			h.DoRisky("thrift.embedded", sh, strconv.Itoa(i))
+		}
+	}
 	for i := 0; i < N; i++ {
 		t, val := h.genThriftCase()
 		ts := t.String()
